@@ -20,9 +20,9 @@ import (
 // Prepare+Execute reference is given the file contents under the spelling the text uses)
 type c20Tree struct {
 	aliases map[string]string
-	name  string
-	files map[string]string // relative file name -> text; "workflow.yaml" is the root
-	leafs []string          // plugin step ids (script keys)
+	name    string
+	files   map[string]string // relative file name -> text; "workflow.yaml" is the root
+	leafs   []string          // plugin step ids (script keys)
 }
 
 func c20Loop(file, inputSchema, itemExpr, otherID string, explicit string) string {
@@ -210,6 +210,7 @@ func c20Unit(otherID string, explicit *[2]bool, tag string) *Unit {
 					cwd    string
 					dirArg func() string
 					policy map[string]int
+					cwdRun string // if set: the working directory is changed to it after the file cache was built
 				}
 				rel := func(from string) func() string {
 					return func() string {
@@ -223,9 +224,12 @@ func c20Unit(otherID string, explicit *[2]bool, tag string) *Unit {
 				abs := func() string { return ctxDir }
 				rev := map[string]int{"StepWorkflowPaths#1": 1, "NewFileCacheUsingContext#1": 1, "fileCache.LoadContext#1": 1, "fileCache.Contents#1": 1, "MergeFileCaches#1": 1, "MergeFileCaches#2": 1, "collectSubworkflows#1": 1, "SubworkflowCache#1": 1}
 				variants := []variant{
-					{"abs/cwd=ctx", ctxDir, abs, nil}, {"abs/cwd=parent", base, abs, nil}, {"abs/cwd=unrelated", unrelated, abs, nil},
-					{"rel/cwd=ctx", ctxDir, rel(ctxDir), nil}, {"rel/cwd=parent", base, rel(base), nil}, {"rel/cwd=unrelated", unrelated, rel(unrelated), nil},
-					{"abs/cwd=unrelated/reversed-file-maps", unrelated, abs, rev},
+					{"abs/cwd=ctx", ctxDir, abs, nil, ""}, {"abs/cwd=parent", base, abs, nil, ""}, {"abs/cwd=unrelated", unrelated, abs, nil, ""},
+					{"rel/cwd=ctx", ctxDir, rel(ctxDir), nil, ""}, {"rel/cwd=parent", base, rel(base), nil, ""}, {"rel/cwd=unrelated", unrelated, rel(unrelated), nil, ""},
+					{"abs/cwd=unrelated/reversed-file-maps", unrelated, abs, rev, ""},
+					// the directory is changed between building the file cache and parsing / running
+					{"rel/cwd=parent->unrelated", base, rel(base), nil, unrelated},
+					{"rel/cwd=ctx->parent", ctxDir, rel(ctxDir), nil, base},
 				}
 				for _, v := range variants {
 					if time.Now().After(deadline) {
@@ -246,6 +250,9 @@ func c20Unit(otherID string, explicit *[2]bool, tag string) *Unit {
 							}
 							if err != nil {
 								return c20Result{err: "load: " + err.Error()}
+							}
+							if v.cwdRun != "" {
+								_ = os.Chdir(v.cwdRun)
 							}
 							if entry == "RunWorkflow" {
 								env.W.Phase = "run"
@@ -295,7 +302,7 @@ func c20Unit(otherID string, explicit *[2]bool, tag string) *Unit {
 
 func init() {
 	register(&PropCheck{ID: "C20", Level: "exploration",
-		Rule:        "workflow trees on disk (nesting depth 0-3, diamond-shared, sibling and level-crossing shared sub-workflows, sub-directory, sub-workflow paths that are not canonical: ./x, d/../x, d//x) x output declarations (ids success / error / failure / a-b_c; inferred, explicit error:true, explicit error:false) x leaf outcome (each declared output chosen) x context directory absolute / relative x working directory in {context, parent, unrelated} x reversed file-map iteration, through RunWorkflow and Parse+Run, compared with Prepare+Execute on the same text; error flag checked against the declaration; a case is non-trivial per distinct result",
+		Rule:        "workflow trees on disk (nesting depth 0-3, diamond-shared, sibling and level-crossing shared sub-workflows, sub-directory, sub-workflow paths that are not canonical: ./x, d/../x, d//x) x output declarations (ids success / error / failure / a-b_c; inferred, explicit error:true, explicit error:false) x leaf outcome (each declared output chosen) x context directory absolute / relative x working directory in {context, parent, unrelated} (also changed between building the file cache and running) x reversed file-map iteration, through RunWorkflow and Parse+Run, compared with Prepare+Execute on the same text; error flag checked against the declaration; a case is non-trivial per distinct result",
 		Assumptions: []string{"the arcaflow binary's exit code mapping is not exercised (package main; its registry cannot be replaced without changing the code under test)", "runs use the default schedule of the controlled runtime (programs have a unique meaning)", "scripted deployer registered by reassigning engine.DefaultDeployerRegistry"},
 		Budget:      budget(170*time.Second, 20*time.Minute),
 		Units: func(tier string) []*Unit {
